@@ -311,6 +311,7 @@ type Solver struct {
 	mu        sync.Mutex
 	ByBackend map[string]*backendStat
 	Seed      int
+	noRetry   bool // set on the solver that runs the second attempts
 }
 
 type backendStat struct {
@@ -352,6 +353,52 @@ func (s *Solver) SolveAll(obls []*Obligation) {
 		}(i, o)
 	}
 	wg.Wait()
+	s.secondChance(obls)
+}
+
+// secondChance: an obligation that failed without any back end answering `sat` (time-outs and `unknown` only) is tried
+// once more with three times the time and little parallelism, after everything else is done. On a loaded or slower
+// machine a proof that normally takes a second can miss the time-out; reporting that as a violation would be a false
+// alarm. A genuinely failing obligation fails again (it only costs time); nothing is ever turned into a pass without an
+// `unsat` answer.
+func (s *Solver) secondChance(obls []*Obligation) {
+	if s.noRetry {
+		return
+	}
+	var again []int
+	for i, o := range obls {
+		if o.Status == "failed" && o.Model == "" && !o.ExpectSat && o.Backend != "constfold" && !strings.Contains(o.Output, ": error") {
+			again = append(again, i)
+		}
+	}
+	if len(again) == 0 || len(again) > 40 {
+		return
+	}
+	r := &Solver{Dir: s.Dir, Timeout: s.Timeout * 3, Agreement: s.Agreement, Par: 3, Prelude: s.Prelude, QFPrelude: s.QFPrelude, Eng: s.Eng, Seed: s.Seed + 1, noRetry: true}
+	sem := make(chan struct{}, r.Par)
+	var wg sync.WaitGroup
+	for _, i := range again {
+		wg.Add(1)
+		go func(i int, o *Obligation) {
+			defer wg.Done()
+			sem <- struct{}{}
+			defer func() { <-sem }()
+			prevOut, prevSecs := o.Output, o.Seconds
+			o.Status, o.Backend, o.Output = "", "", ""
+			r.solveOne(i, o)
+			o.Seconds += prevSecs
+			if o.Status == "discharged" {
+				o.Backend += "+retry"
+			} else {
+				o.Output = prevOut + "second attempt (" + fmt.Sprint(r.Timeout) + " s): " + o.Output
+			}
+		}(i, obls[i])
+	}
+	wg.Wait()
+	for name, b := range r.ByBackend {
+		s.note(name+"+retry", b.Seconds)
+		s.ByBackend[name+"+retry"].Count += b.Count - 1
+	}
 }
 
 func safeName(id string) string {
